@@ -176,3 +176,22 @@ def decide(t):
     r.dpos += 1
     r.path.append(t if d else z3.Not(t))
     return d
+
+
+def concretize_int(t, limit=80):
+    """fork mode: enumerate the feasible integer values of t (one path per value)"""
+    from .proxy import SymbolicBranch
+    s = z3.simplify(t)
+    if z3.is_int_value(s):
+        return s.as_long()
+    r = _cur
+    if r is None or r.decisions is None:
+        raise SymbolicBranch("symbolic integer needed as a concrete value outside fork mode: %s" % str(s)[:160])
+    from . import solve
+    for _ in range(limit):
+        v = solve.feasible_int_value(r.assumptions + r.side + r.path + r.guards, t)
+        if v is None:
+            raise NeedFork("no feasible value")
+        if decide(t == v):
+            return v
+    raise SymbolicBranch("more than %d feasible values for %s" % (limit, str(s)[:100]))
